@@ -55,9 +55,13 @@ def build_kwargs(step, G, shared, family):
     if cls not in COVER_CLASSES:
         kw["flow_attr"] = "flow"
         kw["weight_type"] = int
-    if cls not in MIN_CLASSES:
+    if cls not in MIN_CLASSES and cls != "MinErrorFlow":
         kw["k"] = step.get("k", 2)
     use = step.get("use", [])
+    if cls == "MinErrorFlow":
+        use = [u for u in use if u in ("solver_options", "elements_to_ignore", "error_scaling")]
+    if step.get("threads") is not None and "solver_options" not in use:
+        kw["solver_options"] = {"threads": step["threads"], "time_limit": 60}
     if "optimization_options" in use:
         kw["optimization_options"] = shared["optimization_options"]
     if "solver_options" in use:
@@ -66,7 +70,7 @@ def build_kwargs(step, G, shared, family):
         kw[CONSTRAINT_KEY[cls]] = shared["constraints"]
     if "elements_to_ignore" in use and shared.get("elements_to_ignore") is not None:
         kw["elements_to_ignore"] = shared["elements_to_ignore"]
-    if "error_scaling" in use and shared.get("error_scaling") is not None and cls in gen.HAS_SCALING:
+    if "error_scaling" in use and shared.get("error_scaling") is not None and (cls in gen.HAS_SCALING or cls == "MinErrorFlow"):
         kw["error_scaling"] = shared["error_scaling"]
     return kw
 
@@ -76,6 +80,8 @@ def summarize(model, cls):
     if not solved:
         return {"solved": False}
     sol = model.get_solution()
+    if cls == "MinErrorFlow":
+        return {"solved": True, "objective": round(float(sol["error"]), 6)}
     obj = model.get_objective_value()
     out = {"solved": True, "objective": (round(float(obj), 6) if obj is not None else None)}
     if cls in ROUTE_KEY:
@@ -83,15 +89,28 @@ def summarize(model, cls):
     return out
 
 
-def evaluate(cls, G, kw):
+def construct(cls, G, kw):
     import flowpaths as fp
 
     try:
-        model = getattr(fp, cls)(G, **kw)
+        return None, getattr(fp, cls)(G, **kw)
+    except BaseException as e:  # noqa: BLE001
+        return {"error": type(e).__name__}, None
+
+
+def finish(model, cls):
+    try:
         model.solve()
         return summarize(model, cls), model
     except BaseException as e:  # noqa: BLE001
         return {"error": type(e).__name__}, None
+
+
+def evaluate(cls, G, kw):
+    err, model = construct(cls, G, kw)
+    if err is not None:
+        return err, None
+    return finish(model, cls)
 
 
 def _reference(payload):
@@ -154,16 +173,47 @@ class Interp:
         self.G = graph_from_json(case["graph"])
         self.shared = materialize_shared(case["shared"])
         self.bad = None
+        self.pending = []
         self.flags = {"steps": 0, "sharing_steps": 0, "classes": set()}
 
     def step(self, step):
+        """A step constructs a model and solves it at once, or (defer=True) constructs it now and solves it only after
+        the next step has run - interleaved construct/solve orders of models that share arguments."""
+        if step.get("defer"):
+            cls = step["cls"]
+            before = snapshot(self.G, self.shared)
+            kw = build_kwargs(step, self.G, self.shared, self.case["family"])
+            err, model = construct(cls, self.G, kw)
+            after = snapshot(self.G, self.shared)
+            self.flags["steps"] += 1
+            self.flags["deferred"] = self.flags.get("deferred", 0) + 1
+            self.flags["classes"].add(cls)
+            if before != after:
+                self.bad = ("caller_data_mutated", f"constructing {cls} (passing {step.get('use')}) changed caller-side objects:\n before {before}\n after  {after}")
+                return
+            self.pending.append((step, model, err))
+            return
+        self._run(step)
+        if not self.bad:
+            self.flush()
+
+    def flush(self):
+        while self.pending and not self.bad:
+            step, model, err = self.pending.pop(0)
+            self._run(step, prebuilt=(model, err))
+
+    def _run(self, step, prebuilt=None):
         cls = step["cls"]
         before = snapshot(self.G, self.shared)
-        kw = build_kwargs(step, self.G, self.shared, self.case["family"])
-        res, model = evaluate(cls, self.G, kw)
+        if prebuilt is None:
+            kw = build_kwargs(step, self.G, self.shared, self.case["family"])
+            res, model = evaluate(cls, self.G, kw)
+            self.flags["steps"] += 1
+            self.flags["classes"].add(cls)
+        else:
+            model, err = prebuilt
+            res, model = (err, None) if err is not None else finish(model, cls)
         after = snapshot(self.G, self.shared)
-        self.flags["steps"] += 1
-        self.flags["classes"].add(cls)
         nonempty_shared = [u for u in step.get("use", []) if self.shared.get(u)]
         if nonempty_shared:
             self.flags["sharing_steps"] += 1
@@ -195,7 +245,7 @@ def run_case(case, tier="quick"):
         steps = case["steps"]
         if not steps:
             return invalid_config("no steps")
-        fam = DAG if case.get("family") == "dag" else CYC
+        fam = (DAG if case.get("family") == "dag" else CYC) + ["MinErrorFlow"]
         if any(s["cls"] not in fam for s in steps):
             return invalid_config("class/family")
     except Exception as e:
@@ -205,11 +255,16 @@ def run_case(case, tier="quick"):
         it.step(s)
         if it.bad:
             return violation(it.bad[0], it.bad[1], labels | {s["cls"]})
+    it.flush()
+    if it.bad:
+        return violation(it.bad[0], it.bad[1], labels)
     return _final(it, labels)
 
 
 def _final(it, labels):
     labels = set(labels) | {f"steps:{min(it.flags['steps'], 6)}", f"sharing_steps:{min(it.flags['sharing_steps'], 4)}"}
+    if it.flags.get("deferred"):
+        labels.add("interleaved_construct_solve")
     nontrivial = it.flags["sharing_steps"] >= 2 and len(it.flags["classes"]) >= 2
     return ok(labels, nontrivial)
 
@@ -252,12 +307,16 @@ def make_machine(tier, rec, raise_on_new):
             except Exception:
                 self.dead = True
 
-        @rule(ci=st.integers(0, 5), use=st.lists(st.sampled_from(SHAREABLE), max_size=4, unique=True), dk=st.integers(0, 2))
-        def construct_and_solve(self, ci, use, dk):
+        @rule(ci=st.integers(0, 6), use=st.lists(st.sampled_from(SHAREABLE), max_size=4, unique=True), dk=st.integers(0, 2), defer=st.sampled_from([False, False, True]), threads=st.sampled_from([None, None, 1, 2]))
+        def construct_and_solve(self, ci, use, dk, defer, threads):
             if self.dead or self.it is None or rec.expired():
                 return
-            fam = DAG if self.case["family"] == "dag" else CYC
+            fam = (DAG if self.case["family"] == "dag" else CYC) + ["MinErrorFlow"]
             step = {"cls": fam[ci % len(fam)], "use": sorted(use), "k": max(1, self.case.get("k0", 2) + dk - 1)}
+            if defer:
+                step["defer"] = True
+            if threads is not None and "solver_options" not in step["use"]:
+                step["threads"] = threads
             self.case["steps"].append(step)
             self.it.step(step)
             if self.it.bad:
@@ -269,6 +328,13 @@ def make_machine(tier, rec, raise_on_new):
 
         def teardown(self):
             if not self.dead and self.it is not None and self.case["steps"] and not rec.expired():
+                self.it.flush()
+                if self.it.bad:
+                    out = violation(self.it.bad[0], self.it.bad[1], {f"family:{self.case['family']}"})
+                    b = rec.record(self.case, out)
+                    if b is not None and raise_on_new:
+                        raise AssertionError(f"violation bucket {b}")
+                    return
                 rec.record(self.case, _final(self.it, {f"family:{self.case['family']}"}))
 
     return HistoryMachine
